@@ -347,6 +347,12 @@ class SymReal(numbers.Real):
     ``const``: exact Fraction when the term is a literal constant, else None
     """
 
+    # what a numpy scalar (the result of indexing a float64 array down to one entry) offers besides arithmetic
+    base = None
+    ndim = 0
+    shape = ()
+    size = 1
+
     def __init__(self, t, nl=False, nan=None, const=None):
         self.t = t
         self.nl = nl
@@ -826,7 +832,8 @@ class SymArr(np.ndarray):
                 arr = inputs[0]
                 if not isinstance(arr, np.ndarray):
                     arr = np.asarray(arr, dtype=object)
-                if kwargs.get("where", True) is not True or kwargs.get("initial") is not None:
+                initial = kwargs.get("initial")
+                if kwargs.get("where", True) is not True or (initial is not None and ufunc not in (np.maximum, np.minimum)):
                     raise ModelGap("reduce with where/initial on symbolic values")
                 f2 = None
                 if ufunc is np.maximum:
@@ -843,7 +850,12 @@ class SymArr(np.ndarray):
                             return False
                         if ufunc is np.logical_and:
                             return True
+                    if initial is not None and arr.size == 0 and axis is None:
+                        return initial
                     r = _reduce(f2, arr, axis)
+                    if initial is not None:
+                        # np.max(a, initial=v): v takes part in the comparison like one more entry
+                        r = _vec2(f2, r, initial) if isinstance(r, np.ndarray) else f2(r, initial)
                     if kwargs.get("keepdims"):
                         raise ModelGap("keepdims in merged reduce")
                     if ufunc in (np.logical_or, np.logical_and) and not isinstance(r, np.ndarray):
@@ -889,6 +901,19 @@ class SymArr(np.ndarray):
         # array would store the array object itself)
         if isinstance(value, np.ndarray) and value.ndim == 0 and value.dtype == object:
             value = value[()]
+        if isinstance(key, np.ndarray) and key.dtype == object and key.shape == self.shape and any(isinstance(m, SymBool) for m in key.flat):
+            # a[mask] = v with a symbolic boolean mask of a's own shape: every entry becomes ite(mask, v, old) -- no fork
+            if isinstance(value, np.ndarray) and value.shape != ():
+                raise ModelGap("masked assignment of an array through a symbolic mask (the positions depend on the mask)")
+            v = _sr(value[()] if isinstance(value, np.ndarray) else value)
+            for idx in np.ndindex(*self.shape):
+                m = key[idx]
+                if isinstance(m, SymBool):
+                    old = _sr(self[idx])
+                    super().__setitem__(idx, SymReal(z3.If(m.t, v.t, old.t), nl=v.nl or old.nl or m.nl, nan=old.nan if v.nan is None else z3.If(m.t, v.nan, old.nan if old.nan is not None else z3.BoolVal(False))))
+                elif bool(m):
+                    super().__setitem__(idx, value[()] if isinstance(value, np.ndarray) else value)
+            return
         super().__setitem__(key, value)
 
     def astype(self, dtype, *a, **k):
